@@ -360,6 +360,12 @@ func (r *Result) succs(st pstate) []pstate {
 				return []pstate{mk(b.Succs[0])}
 			}
 		}
+		// the same traversal written as an index loop: `for i := 0; i < len(xs); i++` entered from outside
+		if r.q.NonEmptyRange && st.pred >= 0 && !b.Dominates(fn.Blocks[st.pred]) {
+			if body := indexLoopBody(b, t); body != nil {
+				return []pstate{mk(body)}
+			}
+		}
 		c := r.Eval(t.Cond, st)
 		if v, ok := c.IsBool(); ok {
 			if v {
